@@ -57,7 +57,15 @@ static char *make_jwk(const vh_key_t *k, int priv, int pad, meta_t *m, int extra
 		}
 		if (vh_below(&rng, 8) == 0) a = (int)vh_below(&rng, 15);	/* an alg of another family is still just metadata */
 		m->alg = a;
+		if (vh_below(&rng, 8) == 0) {
+			/* a registered JOSE algorithm this library does not implement (or an unregistered string): the key is still the key, the
+			 * other metadata still count; the item reports the alg as not known */
+			static const char *UNK[] = { "RSA-OAEP-256", "ECDH-ES", "A256KW", "dir", "Ed25519", "RSA1_5", "HS999", "ES256k", "PBES2-HS256+A128KW", "" };
+			m->alg = JWT_ALG_INVAL;
+			tb_adds(&meta, ",\"alg\":\""); tb_adds(&meta, UNK[vh_below(&rng, 10)]); tb_adds(&meta, "\"");
+		} else {
 		tb_adds(&meta, ",\"alg\":\""); tb_adds(&meta, ALGS[a]); tb_adds(&meta, "\"");
+		}
 	}
 	if (vh_below(&rng, 2)) {
 		/* raw value the item must report / its spelling inside the JWK text (some need JSON escaping, some are spelled with \u escapes) */
